@@ -88,7 +88,12 @@ RULE = ("case = (op in {fidelity, KL, NLL}, state kind in {pos, cplx, dens}, n<=
         "recorded) and, on a coin, once before with the state's parameters changed in place (the record at index 0 must be that state's value, "
         "the one at -1 / 1 the case's); the model is told the VALUES; cases without `aseed` replay with plain ints / bools by keyword; non-trivial iff some bias != 0 and (target not real or a basis has a Y or "
         "X) ; malformed stream and call forms the code rejects (empty bases, key mismatch, mask length mismatch, empty samples, alias+target, dict target "
-        "with 2-D ndarray bases, sample_bases as list[str]): outside the property's quantifier, recorded as outcome counters only, no verdict; distinct by hash of the case")
+        "with 2-D ndarray bases, sample_bases as list[str]): outside the property's quantifier, recorded as outcome counters only, no verdict; distinct by hash of the case; "
+        "DICTIONARIES (x-packages): for every n a second ComplexWaveFunction / DensityMatrix state is constructed with unitary_dict= holding user-registered letters "
+        "(H, S, T, random unitaries Q, R, exact gates N, P, V, W; X or Y overridden / swapped in about half; Z sometimes registered explicitly as the identity, never "
+        "as anything else), built as create_dict(**tensors), create_dict(**nested int lists) or a hand-made dict (state key `udict`, `udict_form`); its whole KL / NLL "
+        "sweep draws bases over defaults + registered letters (every registered letter at least once); the model gets the keyword entries (Metrics.userDict); "
+        "quick tier: additionally one n = 4 state per state type and dictionary variant")
 
 EPS = float(torch.finfo(torch.float64).eps)
 S2 = 1.0 / np.sqrt(2.0)
@@ -655,7 +660,9 @@ def fidelity_case(ctx, case, st=None, A=None):
             # the matrix handed to eigvals, up to similarity (spec(AB) = spec(BA): the operand order of the product, a transposed or re-ordered
             # matrix are not constrained): normalised power traces tr((A/s)^k), k = 1..N, of the captured argument vs the model's target * rho / Z
             Mm = mp[..., 0] + 1j * mp[..., 1]
-            s_ = float(max(np.max(np.abs(cap["arg"])), np.max(np.abs(Mm)))) + 1e-300
+            # normalised by the Frobenius norm (>= spectral radius): every |tr((A/s)^k)| <= N, so the absolute tolerance of the point is meaningful for
+            # all k (x-packages: with the largest ENTRY as the scale the traces grew like 7^k at n = 4 and rounding at k = 16 tripped the point)
+            s_ = float(max(np.linalg.norm(cap["arg"]), np.linalg.norm(Mm))) + 1e-300
             pt = lambda X: np.array([np.trace(np.linalg.matrix_power(X / s_, k_)) for k_ in range(1, X.shape[0] + 1)])  # noqa: E731
             pa, pm = pt(cap["arg"]), pt(Mm)
             ctx.point("fidelity.eigvals_argument (power traces: invariant under similarity / operand order)", "aux", np.stack([pa.real, pa.imag], -1).ravel(),
@@ -1089,7 +1096,7 @@ def _gen_quick_n4(ctx):
         t = rand_cvec(rng, N) if kind != "dens" else rand_dm(rng, N)
         short = rng.sample(sel, 2)
         if not ud:
-            if kind != "dens":  # (the similarity-invariant aux point of the mixed fidelity, power traces up to k = 16, is left to the thorough tier)
+            if True:
                 yield {"op": "fidelity", "state": s, "tclass": "random", "target": cjson(t), "alpha": 0.7}
             yield {"op": "kl", "state": s, "tclass": "random", "target": cjson(t), "form": "once", "bases": None, "keys": None}
         yield {"op": "kl", "state": s, "tclass": "random", "target": cjson(t), "form": "once", "bases": short, "keys": None}
